@@ -309,12 +309,35 @@ def cli_batch(res, tier):
             p8file.to_file(g, path)
             res.evaluations += 1
             case = {'src': src, 'width': width, 'cli': True}
+            # how the command is run rotates: absolute path; relative path from the directory; under --debug; on a
+            # .p8.png copy of the cart; several carts in one command
+            how = ('abs', 'rel', 'debug', 'png', 'multi')[n % 5]
+            case['how'] = how
+            cwd0 = os.getcwd()
+            from pico8 import util
             try:
-                rc_ = tool.main(['luafmt', '--indentwidth', str(width), path])
+                if how == 'rel':
+                    os.chdir(d)
+                    rc_ = tool.main(['luafmt', '--indentwidth', str(width), 'c%d.p8' % n])
+                elif how == 'debug':
+                    rc_ = tool.main(['--debug', 'luafmt', '--indentwidth', str(width), path])
+                elif how == 'png':
+                    pathpng = os.path.join(d, 'c%d.p8.png' % n)
+                    p8file.to_file(g, pathpng)
+                    rc_ = tool.main(['luafmt', '--indentwidth', str(width), pathpng])
+                elif how == 'multi':
+                    other = os.path.join(d, 'other%d.p8' % n)
+                    p8file.to_file(carts.make_game({}, version=33, code_lines=[b'-- other\nif x then\ny=1\nend\n']), other)
+                    rc_ = tool.main(['luafmt', '--indentwidth', str(width), other, path, other])
+                else:
+                    rc_ = tool.main(['luafmt', '--indentwidth', str(width), path])
             except Exception as e:
-                res.violation('C09|cli|raise|%s' % type(e).__name__, 'p8tool luafmt on %r raised %r' % (src, e), case)
+                res.violation('C09|cli|raise|%s' % type(e).__name__, 'p8tool luafmt (%s) on %r raised %r' % (how, src, e), case)
                 continue
-            outp = os.path.join(d, 'c%d_fmt.p8' % n)
+            finally:
+                os.chdir(cwd0)
+                util.set_verbosity(util.VERBOSITY_QUIET)
+            outp = os.path.join(d, 'c%d_fmt.p8%s' % (n, '.png' if how == 'png' else ''))
             if rc_ != 0 or not os.path.exists(outp):
                 res.violation('C09|cli|failed', 'p8tool luafmt on %r returned %r' % (src, rc_), case)
                 continue
@@ -323,9 +346,11 @@ def cli_batch(res, tier):
                 _, want = fmt(src, width)
             except Exception:
                 continue
+            if how == 'png':
+                want = want.replace(b'\r', b' ')
             if code.rstrip(b'\n') != want.rstrip(b'\n'):
-                res.violation('C09|cli|differs-from-writer', 'p8tool luafmt --indentwidth %d on %r wrote %r, the writer gives %r'
-                              % (width, src, code, want), case)
+                res.violation('C09|cli|differs-from-writer|%s' % how, 'p8tool luafmt --indentwidth %d (%s) on %r wrote %r, the writer gives %r'
+                              % (width, how, src, code, want), case)
             res.nontriv(('cli', src, width))
         res.count('cli_runs', n)
     finally:
